@@ -900,6 +900,60 @@ def _touches_task(br: BRModel, m: Func) -> bool:
     return any(_self_attr(x, br.task) for x in walk_self(m.node))
 
 
+# ---------------------------------------------------------------------------
+# R7 the disconnect flag never pre-empts buffered messages on the receive side
+# ---------------------------------------------------------------------------
+
+def r7_receive_ignores_flag(run):
+    """The pump raises `client_disconnected` as soon as it PULLS the disconnect
+    event, possibly while earlier messages are still queued.  The flag is for
+    senders ("reported to a sender promptly"); a receiver learns about the
+    disconnect from the queue, after the messages that preceded it.  Decided:
+    no code that runs on the receive path of WebSocket before the queued event
+    is obtained (the receive_* methods, their shared state guard) reads the
+    flag.  W: client sends m0 then leaves before the app's next receive:
+    receive_text() raises WebSocketDisconnected and m0 is lost."""
+    p = run.project
+    ws = p.cls('falcon.asgi.ws.WebSocket')
+    recv = p.cls('falcon.asgi.ws._BufferedReceiver')
+    # the flag(s): boolean attributes the pump sets to True on a disconnect event and that WebSocket._send reads
+    pump_sets = set()
+    for f in recv.methods.values():
+        for n in walk_self(f.node):
+            if isinstance(n, ast.Assign) and isinstance(n.value, ast.Constant) and n.value.value is True:
+                for t in n.targets:
+                    if isinstance(t, ast.Attribute) and isinstance(t.value, ast.Name) and t.value.id == 'self':
+                        pump_sets.add(t.attr)
+    send = ws.methods.get('_send')
+    if send is None:
+        raise AnchorError('WebSocket._send not found')
+    flags = {x.attr for x in ast.walk(send.node) if isinstance(x, ast.Attribute) and x.attr in pump_sets}
+    if not flags:
+        raise AnchorError('the disconnect flag shared by the pump and WebSocket._send was not identified')
+    entry = [m for name, m in sorted(ws.methods.items()) if name.startswith('receive_')]
+    if len(entry) < 3:
+        raise AnchorError('WebSocket.receive_* methods not found')
+    seen = {}
+    work = list(entry)
+    while work:
+        f = work.pop()
+        if f.qual in seen:
+            continue
+        seen[f.qual] = f
+        for c in walk_self(f.node):
+            if isinstance(c, ast.Call) and isinstance(c.func, ast.Attribute) and isinstance(c.func.value, ast.Name) and c.func.value.id == 'self':
+                m = p.lookup_method(ws.qual, c.func.attr)
+                # the raw/buffered receive itself (and what it calls) obtains the event: stop there
+                if m is not None and m.name not in ('_receive',) and not m.name.startswith('_asgi'):
+                    work.append(m)
+    for q, f in sorted(seen.items()):
+        run.use(f)
+        reads = [x for x in ast.walk(f.node) if isinstance(x, ast.Attribute) and x.attr in flags and isinstance(x.ctx, ast.Load)]
+        run.check(not reads, 'the receive path (%s) does not consult the sender-side disconnect flag before the queued event is obtained' % f.name,
+                  f, reads[0] if reads else 'no read of %s' % '/'.join(sorted(flags)), where=f.loc(reads[0] if reads else None),
+                  runtime_witness='client sends m0 and disconnects before the next receive_*(): WebSocketDisconnected is raised and m0 is lost')
+
+
 def check(run):
     run.assume('asyncio semantics: a task is preempted only at await / async for / async with; one consumer (the application) and one producer (the pump task)')
     run.assume('set_result() on a pending future and deque operations do not raise')
@@ -914,4 +968,5 @@ def check(run):
     ]
     run.rule('R5', _c17.r3_session_paths, 'every framework path that ends a session passes a completed ws.close() - the only caller of the '
                                          'pump\'s stop() - whatever closed/ready say (shared with C17 R3)', floor=12)
+    run.rule('R7', r7_receive_ignores_flag, 'the receive path does not consult the sender-side disconnect flag', floor=4)
     run.rule('R6', r6_end_of_stream, 'receive() concludes "no more messages" only when the waiter was not notified or the queue is empty', floor=2)
